@@ -13,8 +13,10 @@ func NewTestRegistry(rangeStart, rangeEnd netip.Addr) *Registry {
 		poolVRFs:         make(map[string]string),
 		ianaAllocators:   make(map[string]*PoolAllocator),
 		profileIANAPools: make(map[string][]string),
+		ianaPoolVRFs:     make(map[string]string),
 		pdAllocators:     make(map[string]*PrefixAllocator),
 		profilePDPools:   make(map[string][]string),
+		pdPoolVRFs:       make(map[string]string),
 	}
 	r.allocators["test/pool"] = NewPoolAllocator(rangeStart, rangeEnd, nil)
 	r.profilePools["test"] = []string{"test/pool"}
